@@ -67,6 +67,7 @@ typedef struct {
 
 static vf_errlog elog;
 static int g_shared_before;	/* run_once: earlier calibration, same kit */
+static double g_merr_nf, g_merr_tr;	/* run_once: measurement-error model */
 
 /* small unrelated calibration */
 static int add_unrelated(vnacal_t *vcp, const char *name, int variant)
@@ -160,6 +161,17 @@ static void run_once(cs_scenario *sc, int before, int after, int dk,
 	snprintf(out->why, sizeof(out->why), "add rejected: %.150s",
 		elog.count ? elog.msg[0] : "");
 	goto out;
+    }
+    if (g_merr_nf > 0.0) {
+	/* measurement-error model: the weights depend on the readings */
+	double nf = g_merr_nf, tr = g_merr_tr;
+	if (vnacal_new_set_m_error(vnp, NULL, 1, &nf, &tr) != 0 ||
+		vnacal_new_set_pvalue_limit(vnp, 1e-300) != 0) {
+	    out->rc = 2;
+	    snprintf(out->why, sizeof(out->why), "set_m_error: %.150s",
+		    elog.count ? elog.msg[0] : "");
+	    goto out;
+	}
     }
     if (vnacal_new_solve(vnp) != 0) {
 	out->rc = 3;
@@ -407,6 +419,55 @@ static void run(int tier, long idx, vf_result *r)
 			"rotation)");
 	    }
 	}
+	/*
+	 * the same with a measurement-error model (weights that depend on
+	 * the readings) on a set that gives the column systems different
+	 * numbers of equations: two more reflects on port 1 only
+	 */
+	if (P >= 2 && !is16(types[t]) && base.nstd + 2 <= CS_MAXSTD) {
+	    static cs_scenario asym;
+	    static applied_t WA;
+	    asym = base;
+	    for (int k = 0; k < 2; ++k) {
+		cs_param q;
+		cs_std *st = &asym.std[asym.nstd];
+		memset(&q, 0, sizeof(q));
+		q.kind = CSP_SCALAR; q.handle = -1;
+		q.c0 = k ? -0.2 - 0.55 * I : 0.45 + 0.3 * I;
+		asym.param[asym.nparam] = q;
+		memset(st, 0, sizeof(*st));
+		st->entry = CSE_SINGLE; st->np = 1; st->port[0] = 1;
+		st->sp[0] = asym.nparam;
+		st->id = asym.nstd + 1;
+		++asym.nparam;
+		++asym.nstd;
+	    }
+	    asym.noise = noise;
+	    g_merr_nf = 1e-4;
+	    g_merr_tr = 2e-2;
+	    run_once(&asym, 0, 0, 0, &WA, r);
+	    n = asym.nstd;
+	    for (int v = 0; v < 2 * n && WA.rc == 0; ++v) {
+		var = asym;
+		if (v == 0) {
+		    for (int i = 0; i < n; ++i)
+			var.std[i] = asym.std[n - 1 - i];
+		} else if (v < n) {
+		    cs_std tmp = var.std[v - 1];
+		    var.std[v - 1] = var.std[v];
+		    var.std[v] = tmp;
+		} else {
+		    int rot = v - n + 1;
+		    for (int i = 0; i < n; ++i)
+			var.std[i] = asym.std[(i + rot) % n];
+		}
+		run_once(&var, 0, 0, 0, &B, r);
+		compare(r, "order-weighted", tname, &WA, &B, P, "standards "
+			"added in a different order, measurement-error model "
+			"on, more reflects on port 1 than on port 2");
+	    }
+	    g_merr_nf = g_merr_tr = 0.0;
+	}
 	break;
     }
 
@@ -615,6 +676,7 @@ static void run(int tier, long idx, vf_result *r)
 done:
     cs_vector_wiggle = 0.0;
     g_shared_before = 0;
+    g_merr_nf = g_merr_tr = 0.0;
     vf_exec_end(r, mark);
 }
 
